@@ -17,7 +17,10 @@ theorem verdict :
 #print axioms untouched_bytes
 #print axioms untouched_leaf_bytes
 #print axioms untouched_target
+#print axioms apply_refines_spec
 #print axioms apply_refines_spec_partial
+#print axioms witness_removeVal_container
+#print axioms not_refinesSpec_of_scalar
 #print axioms apply_refines_spec_unvalidated_partial
 #print axioms atomic_fold
 #print axioms inc_keeps_format
